@@ -12,6 +12,7 @@ CONFIGS = {
     "km": dict(crate="kani-km", features=[], cfg_miri=False, rustflags=""),
     "km-rel": dict(crate="kani-km", features=[], cfg_miri=False, rustflags="-C debug-assertions=off"),
     "km-r4": dict(crate="kani-km", features=[], cfg_miri=True, rustflags=""),
+    "km-serde": dict(crate="kani-km", features=["serde"], cfg_miri=False, rustflags=""),
     "km-cnt": dict(crate="kani-km", features=["counters"], cfg_miri=False, rustflags=""),
     "km-cnt-rel": dict(crate="kani-km", features=["counters"], cfg_miri=False, rustflags="-C debug-assertions=off"),
 }
@@ -123,6 +124,11 @@ SUITES = {
     "C14": {
         "quick": [("km", ["eq_same__s8_4a__u", "eq_differ__s8_4a__u", "eq_differ__u__s8_8g0", "eq_transitive"])],
         "thorough": [("km", ["eq_*", "se_preds__*"])],
+    },
+    "C16": {
+        "quick": [("km-serde", ["sd_ser_map__s8_4one", "sd_ser_map__s8_8g4", "sd_ser_map__u0", "sd_ser_map__s8_e", "sd_ser_map__u8_3t", "sd_ser_set__s8_8g4",
+                                "sd_de_map__n0", "sd_de_map__n2", "sd_de_set_in_place__s8_4a", "sd_de_set_in_place__s8_e", "sd_de_set_in_place__u0"])],
+        "thorough": [("km-serde", ["sd_*"])],
     },
     "C17": {
         "quick": [("km-rel", ["st_raw_replace_with__s8_8g0", "st_insert__s4f_e", "st_remove__s8_8g0", "cap_try_reserve__s8_e", "zst_remove__old2", "it_drain__s8_4a_j1"]),
